@@ -7,7 +7,7 @@ impl BoxedUint {
     /// Computes `-a mod p`.
     /// Assumes `self` is in `[0, p)`.
     pub fn neg_mod(&self, p: &Self) -> Self {
-        debug_assert_eq!(self.bits_precision(), p.bits_precision());
+        assert_eq!(self.bits_precision(), p.bits_precision());
         let is_zero = self.is_zero();
         let mut ret = p.sbb(self, Limb::ZERO).0;
 
